@@ -671,7 +671,7 @@ func hexs(s string) string {
 	return hex.EncodeToString([]byte(s))
 }
 
-var bopTok = map[string]influxql.Token{"mp": influxql.MATCHPHRASE, "eq": influxql.EQ, "neq": influxql.NEQ, "lt": influxql.LT, "gt": influxql.GT, "lte": influxql.LTE, "gte": influxql.GTE}
+var bopTok = map[string]influxql.Token{"in": influxql.IPINRANGE, "mp": influxql.MATCHPHRASE, "eq": influxql.EQ, "neq": influxql.NEQ, "lt": influxql.LT, "gt": influxql.GT, "lte": influxql.LTE, "gte": influxql.GTE}
 
 func (b *bcase) fieldName(f int) string {
 	switch {
@@ -1303,7 +1303,7 @@ func (b *bcase) opLine() string {
 	return fmt.Sprintf("bloom %s %s %d %d %s %d %s %s", b.kind, b.split, b.rpf, b.minRows, rangesOp(b.ranges), b.nIdx, strings.Join(segs, "|"), b.cond.text(b))
 }
 
-var idxOid = map[string]indextype.IndexType{"bf": indextype.BloomFilter, "ft": indextype.BloomFilterFullText, "set": indextype.Set, "tc": indextype.TimeCluster, "tx": indextype.Text}
+var idxOid = map[string]indextype.IndexType{"bf": indextype.BloomFilter, "ft": indextype.BloomFilterFullText, "set": indextype.Set, "tc": indextype.TimeCluster, "tx": indextype.Text, "ip": indextype.BloomFilterIp}
 
 func (b *bcase) relation() *influxql.IndexRelation {
 	rel := &influxql.IndexRelation{}
@@ -1531,7 +1531,7 @@ func runPMatch(c *hx.Ctx, r *hx.Rng) {
 // ---------------------------------------------------------------------------------------------
 
 func runSkip(c *hx.Ctx) error {
-	c.Stats.Rule += " || skip indexes: SKIndexReaderImpl.Scan over scripted readers (answers 1/0/error, ascending and malformed ranges, any seek threshold) and over the real set reader; SKConditionImpl (ConvertToRPNExpr + convertToRPNElem + IsExist) over scripted atom answers on AND/OR trees incl. malformed ones; MinMaxIndexReader with a test ReadFunc (arbitrary int records; sorted int/float/string/bool columns with the boundary layout and the row oracle); bloom filter (index list of 1..3 columns) / full-text bloom filter / relations with both side by side (index lists in any order, set and time-cluster entries) written by the real index writers from generated string columns (nulls, empty, separators, non-ASCII, arbitrary bytes, long tokens, short last block) and read back by the readers the real CreateSKFileReaders builds (ReInit + Scan per reader) under =,!=,<,>,match-phrase,AND,OR conditions with atoms on the served column, on other index columns, on unindexed columns and on __log___; text (inverted) index written by the real cgo builder and read through CreateSKFileReaders / TextIndexReader (one or two index columns, up to 36 segments = three parts, ASCII / multi-byte / mixed text); fragment ranges -> segment ranges (getSegmentRanges over lib/fragment's variable-size marks, malformed ranges included) and the Location segment iteration over them (ascending / descending, limits); time cluster: QuerySchema.GetTimeRangeByTC + GetTimeCondition against the cluster values SortHelper.SortForColumnStore writes (durations 1ns..1d, times before 1970, open ranges); non-trivial = some fragment dropped and some kept"
+	c.Stats.Rule += " || skip indexes: SKIndexReaderImpl.Scan over scripted readers (answers 1/0/error, ascending and malformed ranges, any seek threshold) and over the real set reader; SKConditionImpl (ConvertToRPNExpr + convertToRPNElem + IsExist) over scripted atom answers on AND/OR trees incl. malformed ones; MinMaxIndexReader with a test ReadFunc (arbitrary int records; sorted int/float/string/bool columns with the boundary layout and the row oracle); bloom filter (index list of 1..3 columns) / full-text bloom filter / relations with both side by side (index lists in any order, set and time-cluster entries) written by the real index writers from generated string columns (nulls, empty, separators, non-ASCII, arbitrary bytes, long tokens, short last block) and read back by the readers the real CreateSKFileReaders builds (ReInit + Scan per reader) under =,!=,<,>,match-phrase,AND,OR conditions with atoms on the served column, on other index columns, on unindexed columns and on __log___; IP bloom-filter index (= / IPINRANGE / != atoms on the served, another index and an unindexed column, prefixes 0..32, non-address text); text (inverted) index written by the real cgo builder and read through CreateSKFileReaders / TextIndexReader (one or two index columns, up to 36 segments = three parts, ASCII / multi-byte / mixed text); fragment ranges -> segment ranges (getSegmentRanges over lib/fragment's variable-size marks, malformed ranges included) and the Location segment iteration over them (ascending / descending, limits); time cluster: QuerySchema.GetTimeRangeByTC + GetTimeCondition against the cluster values SortHelper.SortForColumnStore writes (durations 1ns..1d, times before 1970, open ranges); non-trivial = some fragment dropped and some kept"
 	n := c.Budget(8000, 600000)
 	r := hx.NewRng(c.Seed ^ 0x5c20511b)
 	nScan, nSet, nIsx, nMmx, nBloom := n/4, n/40, n/5, n/40, n/8
@@ -1576,6 +1576,14 @@ func runSkip(c *hx.Ctx) error {
 	for i := 0; i < n/20; i++ {
 		runSegRanges(c, r)
 		runLocIter(c, r)
+	}
+	for i := 0; i < n/16; i++ {
+		if err := runBloomIP(c, r, work); err != nil {
+			return err
+		}
+		if i%100 == 99 {
+			runtime.GC()
+		}
 	}
 	nText := n / 16
 	if nText > 8000 {
